@@ -133,6 +133,14 @@ CHECKS = {
         note="Life-cycle calls come from the main OS thread; nothing is submitted from outside after finalize(); ASan runs use one "
              "incarnation (tool false alarm on remapped task stacks).",
         ref="DESIGN.md section 2, C05"),
+    "C04": dict(
+        technique="runtime monitoring: online occupancy counters, stamped grant/release log checked against the request-group order, "
+                  "version/payload checks in every access and wrapper copy, grant-count ledger, payload destructor ledger, "
+                  "quiescence watchdog for never-granted accesses; TSan/ASan as extra oracles",
+        text="Exploration: thousands of random request sequences per run on async_rw_mutex<T> and <void> with every start placement "
+             "(now, later, pool task, OS thread, dropped), wrapper copies and releases on other threads, early mutex destruction.",
+        note="Requests are retrieved from one thread as the API requires; interleavings sampled (no hooks inside async_rw_mutex).",
+        ref="DESIGN.md section 2, C04"),
 }
 
 NOT_YET = "not claimed yet: harness under construction in this session (see DESIGN.md section 2)"
